@@ -550,7 +550,55 @@ type vkCrashJob struct {
 
 var vkMu sync.Mutex
 
+// vkResourceErr: the error text of an exhausted machine (memory, descriptors, threads, disk) - never
+// an observation about the code under test
+func vkResourceErr(s string) bool {
+	for _, pat := range []string{"cannot allocate memory", "out of memory", "too many open files", "no space left on device",
+		"resource temporarily unavailable", "failed to create new OS thread", "fork/exec", "signal: killed"} {
+		if strings.Contains(s, pat) {
+			return true
+		}
+	}
+	return false
+}
+
+func (j *vkCrashJob) firstErr() string {
+	for _, e := range j.events {
+		if e.Obs.Err != "" {
+			return e.A + ":" + e.Obs.Err
+		}
+		if e.St.ScErr != "" {
+			return e.A + ":scan:" + e.St.ScErr
+		}
+	}
+	return ""
+}
+
+// vkRunCrashJob runs one crash scenario. A scenario is deterministic (same directory, same kill, same
+// follow-ups): a failed step (error, death, hang) that does not fail again when the whole scenario is
+// repeated was caused by the machine (memory pressure, a killed child), and the run is dropped as
+// infrastructure - never judged.
 func vkRunCrashJob(j *vkCrashJob, root string) {
+	vkRunCrashJobOnce(j, root)
+	first := j.firstErr()
+	if j.note != "" || first == "" {
+		return
+	}
+	if vkResourceErr(first) {
+		j.note = "infra:resource exhaustion: " + first
+		j.events = nil
+		return
+	}
+	again := *j
+	again.events, again.note, again.rhits = nil, "", nil
+	vkRunCrashJobOnce(&again, root)
+	if again.note != "" || again.firstErr() != first {
+		j.note = fmt.Sprintf("infra:failed step not reproducible (first run %q, second run %q %s)", first, again.firstErr(), again.note)
+		j.events = nil
+	}
+}
+
+func vkRunCrashJobOnce(j *vkCrashJob, root string) {
 	dir := filepath.Join(root, fmt.Sprintf("r%d", j.tid))
 	journal := dir + ".journal"
 	defer os.RemoveAll(dir)
@@ -1000,6 +1048,9 @@ func TestVerifCrash(t *testing.T) {
 		for i, st := range wl.Steps {
 			cur = map[string]int{}
 			eff, obs := run.exec(st)
+			if vkResourceErr(obs.Err) {
+				t.Fatalf("machine out of resources during the profile run: %s", obs.Err)
+			}
 			hits := cur
 			cur = nil
 			st = eff
@@ -1065,6 +1116,9 @@ func TestVerifCrash(t *testing.T) {
 		// the follow-up operations also run on the uncrashed log (clean base line)
 		for _, st := range wl.Post {
 			eff, obs := run.exec(st)
+			if vkResourceErr(obs.Err) {
+				t.Fatalf("machine out of resources during the profile run: %s", obs.Err)
+			}
 			tw.Emit(vkEvent{T: base, K: "base", A: vStr(st, "a"), Args: eff, Cfg: wl.Cfg, St: vkProject(run.l, dir), Obs: obs})
 		}
 		run.l.Close()
